@@ -9,7 +9,7 @@ from . import common, piperun, pysim, snap
 
 # property -> list of (stage, column)
 COLUMNS = {
-    "C01": [(0, 1), (0, 2), (1, 1), (1, 2), (2, 1), (2, 2)],
+    "C01": [(0, 1), (0, 2), (1, 1), (1, 2), (2, 1), (2, 2), (0, 8), (1, 8), (2, 8)],
     "C03": [(1, 6), (2, 7)],
     "C04": [(0, 3), (1, 3), (2, 3)],
     "C05": [(0, 4), (1, 4), (2, 4)],
@@ -17,7 +17,7 @@ COLUMNS = {
 }
 COLNAME = {1: "c01_check false (flat walk)", 2: "c01_check true (region walk)", 3: "wf_check",
            4: "cons_check", 5: "c06_check", 6: "c03_check false (loop part)",
-           7: "c03_check true"}
+           7: "c03_check true", 8: "arcs_resolve (the region discipline resolves every arc)"}
 THEOREM = {"C01": "C01_checker_sound", "C03": "C03_checker_sound", "C04": "C04_checker_sound",
            "C05": "C05_checker_sound", "C06": "C06_checker_sound"}
 NOT_PROVED = {
